@@ -16,7 +16,9 @@ VARIABLE l
 
 ConvDecl(s) == [i \in DOMAIN s |-> [n |-> s[i].n, k |-> s[i].k, deps |-> Range(s[i].deps), draws |-> s[i].draws]]
 ConvHeads(s) == [i \in DOMAIN s |-> [h |-> s[i].h, k |-> s[i].k, deps |-> Range(s[i].deps), draws |-> s[i].draws]]
-CfgOfRec(r) == [vars |-> ConvDecl(r.vars), heads |-> ConvHeads(r.heads), occ |-> r.occ, consts |-> r.consts, ns |-> r.ns]
+\* the constants are decided here: the class defaults with the author's user_constants applied (set / remove)
+CfgOfRec(r) == [vars |-> ConvDecl(r.vars), heads |-> ConvHeads(r.heads), occ |-> r.occ,
+                consts |-> EffectiveConsts(r.defaults, r.uops), ns |-> r.ns]
 Obs(r, j) == LET ps == Range(r.samples[j]) IN [x \in {p.n : p \in ps} |-> (CHOOSE p \in ps : p.n = x).v]
 
 AcceptedBy(r, G) == IF WellFounded(G)
